@@ -380,11 +380,12 @@ int hwloc_bitmap_sscanf(struct hwloc_bitmap_s *set, const char * __hwloc_restric
   int ulongcount;
   int infinite = 0;
 
-  /* count how many substrings there are */
+  /* count how many substrings there are (one more than commas, including a leading comma) */
   count++;
-  if (*current)
-    while ((current = strchr(current+1, ',')) != NULL)
-      count++;
+  while ((current = strchr(current, ',')) != NULL) {
+    count++;
+    current++;
+  }
 
   current = string;
   if (!strncmp("0xf...f", current, 7)) {
@@ -414,7 +415,8 @@ int hwloc_bitmap_sscanf(struct hwloc_bitmap_s *set, const char * __hwloc_restric
   }
 #endif
 
-  while (*current != '\0') {
+  /* there are exactly count substrings, an empty one (even the last one) is zero */
+  while (1) {
     unsigned long val;
     char *next;
     val = strtoul(current, &next, 16);
